@@ -8,6 +8,7 @@ import (
 	"path/filepath"
 	"strings"
 	"sync"
+	"sync/atomic"
 	"testing"
 	"time"
 
@@ -103,6 +104,9 @@ func vpC07BuildOpt(tb vpTB, base string, transit bool, echo *harn.Listener, sock
 	return w
 }
 
+// vpC07Starved is set when the watchdog of the last shell transfer saw the process starved.
+var vpC07Starved atomic.Bool
+
 // vpC07Shell pushes the pattern through `cat` on the exit and returns its stdout.
 func vpC07Shell(w *vpC07World, seed uint64, sizes []int, d time.Duration) ([]byte, error) {
 	ctx, cancel := context.WithTimeout(context.Background(), d)
@@ -120,6 +124,26 @@ func vpC07Shell(w *vpC07World, seed uint64, sizes []int, d time.Duration) ([]byt
 	var mu sync.Mutex
 	acked := make(chan struct{})
 	done := make(chan error, 1)
+	// The client adapter drops output its consumer does not take within 100 ms (by design:
+	// a slow WebSocket client must not stall the mesh). The reader below takes everything at
+	// once, unless this process itself is starved of CPU; a watchdog measures that, and a
+	// case in which it was (a 5 ms sleep that took over 40 ms) is not judged.
+	vpC07Starved.Store(false)
+	wdStop := make(chan struct{})
+	defer close(wdStop)
+	go func() {
+		for {
+			t0 := time.Now()
+			select {
+			case <-wdStop:
+				return
+			case <-time.After(5 * time.Millisecond):
+			}
+			if time.Since(t0) > 40*time.Millisecond {
+				vpC07Starved.Store(true)
+			}
+		}
+	}()
 	go func() { // fast reader: the adapter drops data that is not taken within 100 ms
 		first := true
 		for {
@@ -259,6 +283,10 @@ func TestVP_C07_Paths(t *testing.T) {
 			c.Close()
 		case "shell":
 			got, opErr = vpC07Shell(w, seed, sizes, 30*time.Second)
+			if vpC07Starved.Load() && (opErr != nil || !bytes.Equal(got, vpPattern(seed, 0, total))) {
+				st.Count("shell-cases-not-judged(process starved of CPU: the client adapter drops output not taken within 100 ms)", 1)
+				rt.Skip("process starved during a shell transfer")
+			}
 		case "upload", "download":
 			src := filepath.Join(w.m.base, "src.bin")
 			dst := filepath.Join(w.ftDir, "dst.bin")
